@@ -107,15 +107,19 @@ CHECKS = {
              'pyctr over write/seek/read/re-open histories; monitors: same-session read-back = writes laid over the previous '
              'contents, re-open with a fresh reader, every block re-verified by an independent reference reader, header hash, '
              'CMAC (RFC 4493 transcription), position bookkeeping, read-only error, and the exact set of file positions that '
-             'may change.  Theorems: the hash-path theorem on the levels as byte arrays (every touched block and every block that '
-             'verified before has an intact chain to the updated master hashes; the written level is the old one with the data '
-             'laid over it; a fully verifying tree stays so and its verified view is the overlay) for the specification function '
-             'absWrite, which the driver compares with the model\'s write_data on every write of every run (the refinement proof '
-             'from the DPFS-backed model to absWrite is in progress; until then that link is by execution); position bookkeeping, '
-             'read-only error, no-op writes, descriptor/header hash update for DIFF and DISA, CMAC inputs.',
+             'may change.  Theorems: (1) DPFSLevel3.write_data puts every byte into the copy its block\'s level-2 bit selects and changes '
+             'nothing else (scatter + frame), so the level-3 view becomes the old view with the data laid over it; (2) the hash-path '
+             'theorem on levels as arrays (absWrite): the written level is the overlay, every touched block and every block that '
+             'verified before has an intact chain to the updated master hashes, a fully verifying tree stays so; (3) a refinement '
+             'theorem: on a regular geometry (decidable predicate geomOK, evaluated on every image of every run: all generated images '
+             'meet it) the model\'s write_data = absWrite on the partition\'s levels; (4) combined on the container model '
+             '(C18_write_hash_path): level 4 = overlay at the reader position, chains intact, no file byte outside the partition '
+             'window and the header/table area changes; plus position bookkeeping, read-only error, no-op writes, '
+             'descriptor/header hash update for DIFF and DISA, CMAC inputs.  Not theorems (decided by correspondence + reference '
+             'reader): that a re-opened container parses back to the same state, and cache soundness after a write in the same session.',
         note=COMMON_NOTE + 'SHA-256/AES-CMAC executable in the driver, parameters in theorems; partial updates after an '
              'IndexError inside a write are not modelled (history ends there).',
-        technique='Lean 4 model + proof (partial) + model/implementation correspondence',
+        technique='Lean 4 proof (refinement to an abstract hash tree, invariants) + model/implementation correspondence',
         design='§4 C18'),
     'C14': dict(
         text='Theorems: counter = xor of the halves of SHA-256 of the lower-cased, forward-slashed, NUL-terminated '
